@@ -228,6 +228,10 @@ fn pow(a: Decimal, b: Decimal, q: Q) -> R {
         if r.is_zero() && !a.is_zero() {
             return RV::Unspec("U3: power underflows");
         }
+        if !exact && r.abs() < Decimal::new(1, 18) {
+            // 28 fractional digits cannot hold 1e-9 relative below 1e-18 (as for every other function result)
+            return RV::Unspec("U3: decimal result outside the range where 1e-9 relative is representable");
+        }
         return match q {
             Q::Exact => RV::Val(r, if exact { Q::Tol(0.0) } else { rel(f(r), 1e-9) }),
             _ => RV::Val(r, Q::Skip),
